@@ -21,6 +21,7 @@ import os
 
 PURE_SKIP = ('CallExpr', 'CXXMemberCallExpr', 'CXXOperatorCallExpr', 'CXXConstructExpr', 'CompoundAssignOperator', 'CXXNewExpr', 'CXXDeleteExpr')
 CASTS = ('ImplicitCastExpr', 'CStyleCastExpr', 'CXXStaticCastExpr', 'CXXFunctionalCastExpr', 'CXXReinterpretCastExpr')
+ARITH_TYPES = ('double', 'float', 'int', 'unsigned int', 'long', 'unsigned long', 'int64_t', 'uint64_t', 'int32_t', 'uint32_t', 'int16_t', 'uint16_t', 'uint8_t', 'int8_t', 'size_t')
 ENABLED = not os.environ.get('GDSTK_SA_NO_NORMALISE')
 REL_NORMALISE = bool(os.environ.get('GDSTK_SA_REL'))
 
@@ -373,6 +374,12 @@ def _normalise(fn):
                     if rl_ is not None and strip(rl_).text() == strip(l).text() and strip(rl_).k == strip(l).k:
                         setj(n, k='CompoundAssignOperator', op=r.op + '=')
                         set_children(n, [(l, 'lhs'), (rr, 'rhs')])
+                        changed = True
+                    elif r.op in ('+', '*') and rr is not None and strip(rr).text() == strip(l).text() and strip(rr).k == strip(l).k \
+                            and not has_side_effects(rl_) and '*' not in (l.t or '') and (l.t or '').replace('const ', '').strip() in ARITH_TYPES:
+                        # `a = b op a` with op commutative on arithmetic operands (IEEE addition and multiplication commute exactly)
+                        setj(n, k='CompoundAssignOperator', op=r.op + '=')
+                        set_children(n, [(l, 'lhs'), (rl_, 'rhs')])
                         changed = True
             # N-EQ
             elif k == 'BinaryOperator' and n.op in ('==', '!='):
@@ -1034,6 +1041,15 @@ def inline_new_helpers(db):
     for f in db.functions:
         if f.body is None or not (relsrc(f.file)):
             continue
+        # N-LAMBDA: `name(args)` on a local lambda is an operator call on the closure object; read it as a call of the body
+        for c in [x for x in f.body.walk() if x.k == 'CXXOperatorCallExpr' and (x.callee or '').endswith('::operator()')]:
+            hs = [h for h in db.by_qn.get(c.callee, []) if getattr(h, 'is_lambda', False)]
+            a = [(x, r) for x, r in pairs(c) if r == 'arg']
+            if len(hs) == 1 and a and len(a) - 1 == len(hs[0].params) and strip(a[0][0]) is not None and strip(a[0][0]).k == 'DeclRefExpr':
+                set_children(c, a[1:])
+                c.k = c.j['k'] = 'CallExpr'
+                c.j = dict(c.j)
+                c.j['k'] = 'CallExpr'
         for _round in range(2):
             changed = False
             for c in [x for x in f.body.walk() if x.k == 'CallExpr' and x.callee]:
